@@ -1,7 +1,81 @@
-use serde_json::Value;
+//! Adapters for event authorization (C08, C09) and the power-level helpers (C20).
 
-use crate::OpResult;
+use std::{cell::RefCell, collections::HashMap};
 
-pub fn dispatch(_op: &str, _cmd: &Value) -> Option<OpResult> {
-    None
+use ruma_common::UserId;
+use ruma_events::{StateEventType, TimelineEventType};
+use ruma_state_res::{auth_check, auth_types_for_event};
+use serde_json::{json, value::RawValue, Value};
+
+use crate::{ops_json::rules_for, pev::PEv, s, OpResult};
+
+fn one_auth_check(item: &Value) -> Result<Value, String> {
+    let rules = rules_for(s(item, "version")?)?;
+    let event = PEv::from_json(item.get("event").ok_or("harness: event")?)?;
+    let mut state: HashMap<(String, String), PEv> = HashMap::new();
+    for ev in item.get("state").and_then(Value::as_array).ok_or("harness: state")? {
+        let e = PEv::from_json(ev)?;
+        let key = (e.0.ty.to_string(), e.0.state_key.clone().unwrap_or_default());
+        state.insert(key, e);
+    }
+    // read-set monitor: every (type, state_key) the rules ask the caller for
+    let reads: RefCell<Vec<(String, String)>> = RefCell::new(vec![]);
+    let fetch = |ty: &StateEventType, key: &str| -> Option<PEv> {
+        reads.borrow_mut().push((ty.to_string(), key.to_owned()));
+        state.get(&(ty.to_string(), key.to_owned())).cloned()
+    };
+    let res = auth_check(&rules.authorization, &event, fetch);
+    let mut r = reads.into_inner();
+    r.dedup();
+    Ok(json!({
+        "result": match res { Ok(()) => json!({"ok": null}), Err(e) => json!({"err": e}) },
+        "reads": r,
+    }))
+}
+
+fn one_auth_types(item: &Value) -> Result<Value, String> {
+    let rules = rules_for(s(item, "version")?)?;
+    let ty = TimelineEventType::from(s(item, "type")?);
+    let sender = <&UserId>::try_from(s(item, "sender")?).map_err(|e| format!("harness: sender: {e}"))?;
+    let content = match item.get("content") {
+        Some(Value::String(raw)) => RawValue::from_string(raw.clone()).map_err(|e| format!("harness: content: {e}"))?,
+        Some(c) => serde_json::value::to_raw_value(c).map_err(|e| format!("harness: content: {e}"))?,
+        None => RawValue::from_string("{}".to_owned()).unwrap(),
+    };
+    let res = auth_types_for_event(
+        &ty,
+        sender,
+        item.get("state_key").and_then(Value::as_str),
+        &content,
+        &rules.authorization,
+    );
+    Ok(match res {
+        Ok(v) => json!({"ok": v.into_iter().map(|(t, k)| json!([t.to_string(), k])).collect::<Vec<_>>()}),
+        Err(e) => json!({"err": e}),
+    })
+}
+
+pub fn dispatch(op: &str, cmd: &Value) -> Option<OpResult> {
+    Some(match op {
+        "auth_check" => one_auth_check(cmd),
+        "auth_check_batch" => (|| {
+            let items = cmd.get("items").and_then(Value::as_array).ok_or("harness: items")?;
+            let mut out = Vec::with_capacity(items.len());
+            for it in items {
+                out.push(one_auth_check(it)?);
+            }
+            Ok(Value::Array(out))
+        })(),
+        "auth_types" => one_auth_types(cmd),
+        "auth_types_batch" => (|| {
+            let items = cmd.get("items").and_then(Value::as_array).ok_or("harness: items")?;
+            let mut out = Vec::with_capacity(items.len());
+            for it in items {
+                out.push(one_auth_types(it)?);
+            }
+            Ok(Value::Array(out))
+        })(),
+        "power_helpers" => crate::ops_auth_helpers::power_helpers(cmd),
+        _ => return None,
+    })
 }
